@@ -270,6 +270,10 @@ class State:
                 self.heap[k] = new
 
 
+# callees that traverse an iterator they are given to its end (opt-in model, Hooks.iterators_are_consumed)
+ITERATOR_CONSUMERS = {'writelines', 'list', 'tuple', 'sorted', 'join', 'extend', 'sum', 'set', 'frozenset', 'dict',
+                      'max', 'min', 'any', 'all'}
+
 _PURE_STR_METHODS = {'lower', 'upper', 'strip', 'lstrip', 'rstrip', 'startswith', 'endswith', 'isspace', 'isdigit',
                      'isalnum', 'capitalize', 'title', 'replace', 'find', 'count'}
 
@@ -679,6 +683,9 @@ class Interp:
                 final.extend(self.exec_block(s.orelse, s_exit) if s.orelse else [Outcome(NORMAL, None, s_exit)])
                 if i == self.hooks.loop_bound:
                     continue
+                if getattr(self.hooks, 'iterators_are_consumed', False) and isinstance(itv, Sym) \
+                        and ('exhausted', itv.id) in s1.heap:
+                    continue   # the iterator has been handed to a consumer: nothing is left
                 s1.trace.append(Event('loop-iter', i, s, s1.frame.func))
                 self.assign_target(s.target, Sym('elem', cls=elem_cls, origin=('elem', itv, i), node=s.target), s1)
                 for o in self.exec_block(s.body, s1):
@@ -1452,6 +1459,13 @@ class Interp:
         if isinstance(cdef, External) and self.is_external_exception(cdef):
             return [('val', Exc(cdef, args, node), st)]
         # ---- opaque call
+        if getattr(self.hooks, 'iterators_are_consumed', False):
+            callee_name = node.func.attr if isinstance(node.func, ast.Attribute) else (
+                node.func.id if isinstance(node.func, ast.Name) else '')
+            if callee_name in ITERATOR_CONSUMERS:
+                for a in args:
+                    if isinstance(a, Sym) and getattr(a, 'is_iterator', False):
+                        st.heap[('exhausted', a.id)] = K(True)
         ev_idx = None
         if self.hooks.record_call(cdef, node):
             st.trace.append(Event('call', {'callee': cdef, 'args': args, 'kwargs': kwargs, 'recv': getattr(cv, 'recv', None),
@@ -1468,6 +1482,9 @@ class Interp:
         rv = self.hooks.opaque_result(self, cdef, node, args, kwargs, st)
         if rv is None:
             rv = self.default_result(cdef, cv, node, args, kwargs, st, ev_idx)
+            if getattr(self.hooks, 'iterators_are_consumed', False) and isinstance(cdef, External) \
+                    and cdef.dotted == 'builtins.iter' and isinstance(rv, Sym):
+                rv.is_iterator = True
         results.append(('val', rv, st))
         return results
 
